@@ -21,8 +21,9 @@
    the two moments are not distinguished.  A woken thread runs IMMEDIATELY, nested inside the
    notifier's instruction: the interpreter [go] is a recursive function over "tasks" (one task
    per C++ function) with explicit fuel, a thread's remaining program is data ([cont]).
-   m_CurrentThread is a weak reference: it is null as soon as the current thread is deleted,
-   and ScriptExecuteInternal then runs ExecuteRunning nested (modelled).
+   m_CurrentThread is a weak reference: it is null as soon as the current thread is deleted;
+   ExecuteRunning is only run by the outermost execution (m_ExecutionDepth == 0).  println of
+   a waitthread result shows an unresolved return-value pointer when the callee was killed.
 
    Abstracted.  The enumeration order of con::set over NAMES (only used by UnregisterAll and
    CancelWaitingAll) is the fixed order c, b, a, "" instead of the hash order; the event names
@@ -138,6 +139,10 @@ Fixpoint psize (p : list instr) : nat :=
   match p with [] => O | i :: p' => (isize i + psize p')%nat end.
 
 (* ---------------------------------------------------------------- the shared engine state *)
+(* a script value as far as println can tell: NIL, an integer, or an unresolved return-value
+   pointer (what `local.r = waitthread ..` holds until the callee ends) *)
+Inductive rval := RNil | RInt (v : N) | RPtr.
+
 Inductive tstate := TRunning | TWaiting | TTiming.        (* ScriptThread::m_ThreadState *)
 Inductive vstate := VRunning | VSuspended | VIdling.      (* ScriptVM::state of a live thread *)
 
@@ -147,12 +152,12 @@ Record thread := mkTh {
   vst : vstate;
   cont : list instr;        (* what the VM still has to run (saved code position) *)
   grp : N;                  (* its ScriptClass *)
-  rreg : option N;          (* local.r *)
+  rreg : rval;              (* local.r *)
   retto : option N }.       (* the waitthread caller that holds my return-value pointer *)
 
-Definition dead_thread : thread := mkTh false TRunning VIdling [] 0 None None.
+Definition dead_thread : thread := mkTh false TRunning VIdling [] 0 RNil None.
 
-Inductive pval := PM (m : N) | PR (v : option N).
+Inductive pval := PM (m : N) | PR (v : rval).
 Definition pr := (N * pval)%type.               (* (thread, what it printed) *)
 
 Record sh := mkSh {
@@ -166,23 +171,26 @@ Record sh := mkSh {
   nthr : nat;                  (* live ScriptThread objects (pool count) *)
   cur : option N;              (* ScriptMaster::m_CurrentThread *)
   clock : N;                   (* the injected clock minus the start time *)
-  log : list pr }.
+  log : list pr;
+  depth : nat }.               (* ScriptMaster::m_ExecutionDepth: thread executions in progress *)
 
 Definition sh_init : sh :=
-  mkSh (aempty dead_thread) 0 (aempty None) (aempty false) 0 [] (aempty O) 0 O O None 0 [].
+  mkSh (aempty dead_thread) 0 (aempty None) (aempty false) 0 [] (aempty O) 0 O O None 0 [] O.
 
 Definition set_thr (s : sh) (v : arr thread) : sh :=
-  mkSh v (ntid s) (slots s) (oalive s) (nobj s) (etab s) (gcnt s) (ngrp s) (nscr s) (nthr s) (cur s) (clock s) (log s).
+  mkSh v (ntid s) (slots s) (oalive s) (nobj s) (etab s) (gcnt s) (ngrp s) (nscr s) (nthr s) (cur s) (clock s) (log s) (depth s).
 Definition set_etab (s : sh) (v : tab) : sh :=
-  mkSh (thr s) (ntid s) (slots s) (oalive s) (nobj s) v (gcnt s) (ngrp s) (nscr s) (nthr s) (cur s) (clock s) (log s).
+  mkSh (thr s) (ntid s) (slots s) (oalive s) (nobj s) v (gcnt s) (ngrp s) (nscr s) (nthr s) (cur s) (clock s) (log s) (depth s).
 Definition set_cur (s : sh) (v : option N) : sh :=
-  mkSh (thr s) (ntid s) (slots s) (oalive s) (nobj s) (etab s) (gcnt s) (ngrp s) (nscr s) (nthr s) v (clock s) (log s).
+  mkSh (thr s) (ntid s) (slots s) (oalive s) (nobj s) (etab s) (gcnt s) (ngrp s) (nscr s) (nthr s) v (clock s) (log s) (depth s).
 Definition set_log (s : sh) (v : list pr) : sh :=
-  mkSh (thr s) (ntid s) (slots s) (oalive s) (nobj s) (etab s) (gcnt s) (ngrp s) (nscr s) (nthr s) (cur s) (clock s) v.
+  mkSh (thr s) (ntid s) (slots s) (oalive s) (nobj s) (etab s) (gcnt s) (ngrp s) (nscr s) (nthr s) (cur s) (clock s) v (depth s).
 Definition set_clock (s : sh) (v : N) : sh :=
-  mkSh (thr s) (ntid s) (slots s) (oalive s) (nobj s) (etab s) (gcnt s) (ngrp s) (nscr s) (nthr s) (cur s) v (log s).
+  mkSh (thr s) (ntid s) (slots s) (oalive s) (nobj s) (etab s) (gcnt s) (ngrp s) (nscr s) (nthr s) (cur s) v (log s) (depth s).
+Definition set_depth (s : sh) (v : nat) : sh :=
+  mkSh (thr s) (ntid s) (slots s) (oalive s) (nobj s) (etab s) (gcnt s) (ngrp s) (nscr s) (nthr s) (cur s) (clock s) (log s) v.
 Definition set_objs (s : sh) (sl : arr (option N)) (oa : arr bool) (no : N) : sh :=
-  mkSh (thr s) (ntid s) sl oa no (etab s) (gcnt s) (ngrp s) (nscr s) (nthr s) (cur s) (clock s) (log s).
+  mkSh (thr s) (ntid s) sl oa no (etab s) (gcnt s) (ngrp s) (nscr s) (nthr s) (cur s) (clock s) (log s) (depth s).
 
 Definition th (s : sh) (t : N) : thread := get (thr s) t.
 Definition upd (s : sh) (t : N) (v : thread) : sh := set_thr s (set (thr s) t v).
@@ -191,7 +199,7 @@ Definition w_alive (x : thread) (v : bool) := mkTh v (tst x) (vst x) (cont x) (g
 Definition w_tst (x : thread) (v : tstate) := mkTh (alive x) v (vst x) (cont x) (grp x) (rreg x) (retto x).
 Definition w_vst (x : thread) (v : vstate) := mkTh (alive x) (tst x) v (cont x) (grp x) (rreg x) (retto x).
 Definition w_cont (x : thread) (v : list instr) := mkTh (alive x) (tst x) (vst x) v (grp x) (rreg x) (retto x).
-Definition w_rreg (x : thread) (v : option N) := mkTh (alive x) (tst x) (vst x) (cont x) (grp x) v (retto x).
+Definition w_rreg (x : thread) (v : rval) := mkTh (alive x) (tst x) (vst x) (cont x) (grp x) v (retto x).
 
 Definition is_waiting (x : tstate) : bool := match x with TWaiting => true | _ => false end.
 Definition opt_eqb (a : option N) (t : N) : bool := match a with Some c => c =? t | None => false end.
@@ -209,22 +217,22 @@ Definition obj_of (s : sh) (o : N) : option N :=
 
 (* a new ScriptThread + ScriptVM in ScriptClass g: ScriptClass::AddThread *)
 Definition new_thread (s : sh) (g : N) (p : list instr) (ret : option N) : sh :=
-  mkSh (set (thr s) (ntid s) (mkTh true TRunning VRunning p g None ret)) (ntid s + 1)
+  mkSh (set (thr s) (ntid s) (mkTh true TRunning VRunning p g RNil ret)) (ntid s + 1)
        (slots s) (oalive s) (nobj s) (etab s) (set (gcnt s) g (S (get (gcnt s) g))) (ngrp s)
-       (nscr s) (S (nthr s)) (cur s) (clock s) (log s).
+       (nscr s) (S (nthr s)) (cur s) (clock s) (log s) (depth s).
 
 (* a new ScriptClass (its first thread follows): host ExecuteThread, and `waitthread` of a
    thread, which is served by Listener::CreateThreadInternal (a NEW ScriptClass whose self
    is the calling thread), unlike `thread`, served by ScriptClass::CreateThreadInternal *)
 Definition new_class (s : sh) : sh :=
   mkSh (thr s) (ntid s) (slots s) (oalive s) (nobj s) (etab s) (gcnt s) (ngrp s + 1)
-       (S (nscr s)) (nthr s) (cur s) (clock s) (log s).
+       (S (nscr s)) (nthr s) (cur s) (clock s) (log s) (depth s).
 
 (* ScriptVM::NotifyDelete -> ScriptClass::RemoveThread: the last thread deletes the class *)
 Definition remove_from_class (s : sh) (g : N) : sh :=
   let c := pred (get (gcnt s) g) in
   mkSh (thr s) (ntid s) (slots s) (oalive s) (nobj s) (etab s) (set (gcnt s) g c) (ngrp s)
-       (match c with O => pred (nscr s) | _ => nscr s end) (pred (nthr s)) (cur s) (clock s) (log s).
+       (match c with O => pred (nscr s) | _ => nscr s end) (pred (nthr s)) (cur s) (clock s) (log s) (depth s).
 
 (* ---------------------------------------------------------------- primitives *)
 Record prims (T : Type) := mkPrims {
@@ -240,12 +248,14 @@ Record prims (T : Type) := mkPrims {
   p_tpop : T -> T * option N;                       (* GetNextElement *)
   p_settime : N -> T -> T;                          (* SetTime *)
   p_regsize : lid -> name -> T -> nat;              (* RegisterSize(name) *)
-  p_timing : T -> bool }.                           (* timer HasAnyElement *)
+  p_timing : T -> bool;                             (* timer HasAnyElement *)
+  p_res : rval -> rval;                             (* what println shows for a result variable *)
+  p_flag : T -> bool }.                             (* specification only: a cancelled registration was matched *)
 
 Arguments p_reg {T}. Arguments p_waiting {T}. Arguments p_detach {T}. Arguments p_detach_all {T}.
 Arguments p_cancel0 {T}. Arguments p_cancel_rest {T}. Arguments p_tadd {T}. Arguments p_tremove {T}.
 Arguments p_tpop_first {T}. Arguments p_tpop {T}. Arguments p_settime {T}. Arguments p_regsize {T}.
-Arguments p_timing {T}.
+Arguments p_timing {T}. Arguments p_res {T}. Arguments p_flag {T}.
 
 (* ---------------------------------------------------------------- the interpreter *)
 Inductive task :=
@@ -276,7 +286,8 @@ Record obs := mkObs {
   nscripts : nat;             (* GetNumRunningScripts *)
   nthreads : nat;             (* ScriptThread pool count *)
   timing : bool;              (* timer HasAnyElement *)
-  sizes : list nat }.         (* RegisterSize(a), (b), (c) of level.o0, o1, o2 *)
+  sizes : list nat;           (* RegisterSize(a), (b), (c) of level.o0, o1, o2 *)
+  stale : bool }.             (* [p_flag] *)
 
 Section Interp.
   Context {T : Type}.
@@ -382,12 +393,17 @@ Section Interp.
       | KExecute w =>
           let saved := cur s in
           do (x2, s2) <- go f (KStop w) x (set_cur s (Some w));
-          do (x3, s3) <- go f (KVmExecute w) x2 s2;
+          do (x3, s3) <- go f (KVmExecute w) x2 (set_depth s2 (S (depth s2)));
           let c := match saved with
                    | Some c => if alive (th s3 c) then Some c else None
                    | None => None
                    end in
-          go f KExecRunning x3 (set_cur s3 c)
+          let s4 := set_cur (set_depth s3 (pred (depth s3))) c in
+          (* only the outermost execution runs the due threads *)
+          match depth s4 with
+          | O => go f KExecRunning x3 s4
+          | S _ => Some (x3, s4)
+          end
       | KVmExecute w =>
           do (x2, s2) <- go f (KRunLoop w) x (upd s w (w_vst (th s w) VRunning));
           let t2 := th s2 w in
@@ -413,7 +429,7 @@ Section Interp.
       | KEnd w v =>
           (* the return value resolves the caller's pointer, then the thread is deleted *)
           let s1 := match retto (th s w) with
-                    | Some c => upd s c (w_rreg (th s c) v)
+                    | Some c => upd s c (w_rreg (th s c) (match v with Some z => RInt z | None => RNil end))
                     | None => s
                     end in
           go f (KKill w) x s1
@@ -474,7 +490,7 @@ Section Interp.
               go f (KExecute t) x (new_thread s (grp (th s w)) p None)
           | IWaitThread p =>
               let t := ntid s in
-              let s1 := new_class (new_thread (upd s w (w_rreg (th s w) None)) (ngrp s) p (Some w)) in
+              let s1 := new_class (new_thread (upd s w (w_rreg (th s w) RPtr)) (ngrp s) p (Some w)) in
               do (x2, s2) <- go f (KRegister (LThr t) NE w) x s1;
               go f (KExecute t) x2 s2
           | IEnd v => go f (KEnd w v) x s
@@ -492,7 +508,8 @@ Section Interp.
       | KResumeLoop w =>
           (* m_CurrentThread = w; w->Resume(): state Running, m_ScriptVM->Execute() *)
           let s1 := upd (set_cur s (Some w)) w (w_tst (th s w) TRunning) in
-          do (x2, s2) <- go f (KVmExecute w) x s1;
+          do (x2, s2') <- go f (KVmExecute w) x (set_depth s1 (S (depth s1)));
+          let s2 := set_depth s2' (pred (depth s2')) in
           let '(x3, r) := p_tpop P x2 in
           match r with
           | Some w' => go f (KResumeLoop w') x3 s2
@@ -506,8 +523,9 @@ Section Interp.
     match obj_of s o with Some ob => p_regsize P (LO ob) (NS n) x | None => O end.
 
   Definition observe (x : T) (s : sh) : obs :=
-    mkObs (rev (log s)) (Nat.eqb (nscr s) 0) (nscr s) (nthr s) (p_timing P x)
-          (flat_map (fun o => map (size_of x s o) [NA; NB; NC]) [0; 1; 2]).
+    mkObs (map (fun e => match snd e with PR v => (fst e, PR (p_res P v)) | _ => e end) (rev (log s)))
+          (Nat.eqb (nscr s) 0) (nscr s) (nthr s) (p_timing P x)
+          (flat_map (fun o => map (size_of x s o) [NA; NB; NC]) [0; 1; 2]) (p_flag P x).
 
   (* live threads, each with what it still has to run *)
   Fixpoint weight_upto (s : sh) (n : nat) : nat :=
@@ -640,6 +658,6 @@ Definition m_timing (x : mt) : bool := negb (is_nil (elems x)).
 
 Definition model_prims : prims mt :=
   mkPrims mt m_reg m_waiting m_detach m_detach_all m_cancel0 m_cancel_rest m_tadd m_tremove
-          m_tpop_first m_tpop m_settime m_regsize m_timing.
+          m_tpop_first m_tpop m_settime m_regsize m_timing (fun v => v) (fun _ => false).
 
 Definition run (ops : list op) : list (option obs) := run_from model_prims mt_init sh_init ops.
